@@ -80,6 +80,26 @@ class Builder(object):
         if k == 'expr':
             return self.expr_stmt(s.e, nxt, s)
         if k == 'decl':
+            se = strip_bool(s.e) if s.e is not None else None
+            if se is not None and not s.static and is_logical(se):
+                # T x = a && b;  ==  if(a && b) T x = 1; else T x = 0;   (the atoms become edges, so a failure
+                # folded into a flag is still related to the flag's value on each path)
+                one = g.new('decl', e=E('int', val=1, t='int', file=s.file, line=s.line), var=s.var, file=s.file,
+                            line=s.line, stmt=s)
+                zero = g.new('decl', e=E('int', val=0, t='int', file=s.file, line=s.line), var=s.var, file=s.file,
+                             line=s.line, stmt=s)
+                one.static = zero.static = False
+                g.edge(one, nxt)
+                g.edge(zero, nxt)
+                return self.cond(s.e, one, zero, s)
+            if se is not None and not s.static and se.k == 'cond' and not (s.var.t or '').rstrip().endswith(']'):
+                # T x = c ? a : b;  ==  if(c) T x = a; else T x = b;
+                ta = g.new('decl', e=se.a[1], var=s.var, file=s.file, line=s.line, stmt=s)
+                tb = g.new('decl', e=se.a[2], var=s.var, file=s.file, line=s.line, stmt=s)
+                ta.static = tb.static = False
+                g.edge(ta, nxt)
+                g.edge(tb, nxt)
+                return self.cond(se.a[0], self.prefix_stmtexprs(se.a[1], ta), self.prefix_stmtexprs(se.a[2], tb), s)
             n = g.new('decl', e=s.e, var=s.var, file=s.file, line=s.line, stmt=s)
             n.static = s.static
             g.edge(n, nxt)
@@ -214,6 +234,25 @@ class Builder(object):
         if se.k == 'bin' and se.op in ('&&', '||'):
             # used for effect: evaluate as a condition with both outcomes joining
             return self.cond(se, nxt, nxt, s)
+        if se.k == 'bin' and se.op == '=' and strip_bool(se.a[1]).k == 'cond' and strip(se.a[0]).k in ('var', 'mem'):
+            # x = c ? a : b;  ==  if(c) x = a; else x = b;
+            cnd = strip_bool(se.a[1])
+
+            def asg2(v):
+                a = E('bin', op='=', a=[se.a[0], v], t=se.t, dt=se.dt, file=se.file, line=se.line, uid=None)
+                n_ = g.new('stmt', e=a, file=e.file or s.file, line=e.line or s.line, stmt=s)
+                g.edge(n_, nxt)
+                return self.prefix_stmtexprs(v, n_)
+            return self.cond(cnd.a[0], asg2(cnd.a[1]), asg2(cnd.a[2]), s)
+        if se.k == 'bin' and se.op == '=' and is_logical(strip_bool(se.a[1])) and strip(se.a[0]).k in ('var', 'mem'):
+            # x = a && b;  ==  if(a && b) x = 1; else x = 0;
+            def asg(v):
+                c = E('int', val=v, t='int', file=se.file, line=se.line)
+                a = E('bin', op='=', a=[se.a[0], c], t=se.t, dt=se.dt, file=se.file, line=se.line)
+                n_ = g.new('stmt', e=a, file=e.file or s.file, line=e.line or s.line, stmt=s)
+                g.edge(n_, nxt)
+                return n_
+            return self.cond(se.a[1], asg(1), asg(0), s)
         n = g.new('stmt', e=e, file=e.file or s.file, line=e.line or s.line, stmt=s)
         g.edge(n, nxt)
         return self.prefix_stmtexprs(e, n)
@@ -247,6 +286,15 @@ class Builder(object):
         g.edge(n, t, True)
         g.edge(n, f, False)
         return self.prefix_stmtexprs(se, n)
+
+
+def is_logical(se):
+    return (se.k == 'bin' and se.op in ('&&', '||', '==', '!=', '<', '>', '<=', '>=')) or \
+        (se.k == 'un' and se.op == '!' and is_logical_or_call(strip_bool(se.a[0])))
+
+
+def is_logical_or_call(se):
+    return is_logical(se) or se.k == 'call'
 
 
 def strip_bool(e):
